@@ -800,7 +800,42 @@ class Sym:
                 ty = ty["t"]
             if ty["k"] == "adt":
                 return ty["p"]
-        if t[0] == "field" or t[0] == "var" or t[0] == "try":
+        if t[0] == "try":
+            inner = strip(t[1])
+            if inner[0] == "call":
+                blk = self.an.body.blocks[inner[3]]["t"]
+                d = blk["dest"]
+                if not d["pr"]:
+                    ty = self.an.body.locals[d["l"]]["ty"]
+                    if ty["k"] == "adt" and ty["p"].endswith("Result") and ty["a"] and ty["a"][0]["k"] == "adt":
+                        return ty["a"][0]["p"]
+            return None
+        if t[0] == "field" and strip(t[1])[0] == "downcast":
+            dc = strip(t[1])
+            src = strip(dc[1])
+            if src[0] == "call":
+                blk = self.an.body.blocks[src[3]]["t"]
+                d = blk["dest"]
+                if not d["pr"]:
+                    ty = self.an.body.locals[d["l"]]["ty"]
+                    if ty["k"] == "adt" and ty["p"].split("::")[-1] in ("Option", "Result") and ty["a"]:
+                        idx = 1 if dc[2] == "Err" else 0
+                        if idx < len(ty["a"]):
+                            et = ty["a"][idx]
+                            while et["k"] == "ref":
+                                et = et["t"]
+                            if et["k"] == "adt":
+                                return et["p"]
+                            if et["k"] == "tuple":
+                                return None
+            base_ty = self.enum_of(dc[1])
+            a = self.prog.adts.get(base_ty) if base_ty else None
+            if a:
+                for var in a["variants"]:
+                    if var["name"] == dc[2] and t[2] < len(var["fields"]):
+                        fty = var["fields"][t[2]]["ty"]
+                        if fty["k"] == "adt":
+                            return fty["p"]
             return None
         return None
 
@@ -823,12 +858,19 @@ def closure_pred_name(sym, cbody, ret):
     |b| i16::from_be_bytes(b.try_into().unwrap())"""
     r = strip(ret)
 
+    def has_carg(x):
+        from .terms import walk
+        return any(y[0] in ("carg", "cenv") for y in walk(x))
+
     def nm(x, d=0):
         x = strip(x)
         if d > 8:
             return "..."
         if x == ("carg", 0):
             return "x"
+        if not has_carg(x) and x[0] not in ("const",):
+            # a captured value: name it in the parent's vocabulary
+            return sym.arg_name(x)
         if x[0] == "carg":
             return "x%d" % x[1]
         if x[0] == "const":
